@@ -63,6 +63,10 @@ def run_one(mod, payload, limit=None, fn="run_case"):
             signal.setitimer(signal.ITIMER_REAL, 0)
     except CaseTimeout:
         res = {"timeout": True, "violations": [], "outcome": "TIMEOUT", "nontrivial": False}
+        if getattr(mod, "OWNS_TIMEOUTS", False):
+            what = mod.timeout_key(payload) if hasattr(mod, "timeout_key") else "case"
+            res["violations"] = [{"oracle": "hang", "site": "-", "key": what, "detail": f"no termination within {limit} s: {what}"}]
+            res["nontrivial"] = True
     except Exception as exc:  # harness-side error: never a violation  # noqa: BLE001
         res = {"harness_error": f"{type(exc).__name__}: {exc}\n{traceback.format_exc()[-1500:]}",
                "violations": [], "outcome": "HARNESS_ERROR", "nontrivial": False}
@@ -130,7 +134,8 @@ def replay_file(path, as_json=False):
         mod.init_worker()
     runs = []
     for _ in range(2):
-        res = run_one(mod, rec["payload"], limit=getattr(mod, "CASE_LIMIT", CASE_LIMIT_S) * 10, fn=rec.get("fn", "run_case"))
+        factor = 3 if getattr(mod, "OWNS_TIMEOUTS", False) else 10     # a hang is re-run alone with a larger limit before it is believed
+        res = run_one(mod, rec["payload"], limit=getattr(mod, "CASE_LIMIT", CASE_LIMIT_S) * factor, fn=rec.get("fn", "run_case"))
         runs.append(sorted({signature(prop, v) for v in res["violations"]})
                     + (["<timeout>"] if res.get("timeout") else [])
                     + (["<harness_error>"] if res.get("harness_error") else []))
